@@ -423,7 +423,11 @@ func vfRunRaw(c vtrace.Case, rec *vtrace.Rec) {
 				return
 			}
 			typ := uint64(op.Int("type"))
-			extra := vfFrame(typ, make([]byte, op.Int("len")))
+			payload := make([]byte, op.Int("len"))
+			if typ == 0x03 || typ == 0x07 || typ == 0x0d { // these carry one variable-length integer: a well-formed frame
+				payload = []byte{0x00}
+			}
+			extra := vfFrame(typ, payload)
 			r.add(vtrace.Op{"ev": "Sent", "id": id, "reqdecl": -1, "reqlen": map[bool]int{true: 0, false: 1}[op.Str("where") == "first"], "reqfail": false})
 			var seq []byte
 			switch op.Str("where") {
